@@ -59,75 +59,11 @@ def ob_last_slice_prune(run, oid):
             o.check(bool(sws), "add_shred|store|last-slice-consulted", "the known last slice is consulted before a shred is stored", ssp)
 
 
-def check(run):
-    from . import detectors as _DL
-    _DL.ob_loop_exits(run, "O13.9", ['consensus::blockstore'], 'every slice of a block is reconstructed and checked: a loop that stops early assembles a partial block')
-    # "can afterwards serve every shred, slice root and proof of it": the lookup behind all getters
-    from . import C14
-    C14.ob_block_lookup(run, "O13.8")
-    ob_slice_outcomes(run, "O13.7")
-    D.ob_state_mutations(run, "O13.6", ['consensus::blockstore::slot_block_data::BlockData', 'consensus::blockstore::slot_block_data::SlotBlockData', 'consensus::blockstore::BlockstoreImpl'], 'completed / last_slice / commitment_cache / misbehaviour flags are once-only records: clearing them re-announces blocks or hides equivocation')
-    ob_last_slice_prune(run, "O13.1b")
-    from . import C12
-    C12.ob_equivocation(run, "O13.1c")
+def ob_content_gates(run, oid):
+    """try_reconstruct_block: what stands between the slices of a slot and the announcement of a block"""
     prog = run.program("lib")
-
-    # ------------------------------------------------------------------ O13.1
-    o = run.ob("O13.1", "once-only flags: misbehaviour flagged once, no dissemination ingest afterwards, block completed once",
-               "announcing twice makes Votor act twice; ingesting after the flag announces a block for a slot already declared invalid", floor=8)
-    w = K.all_field_writers(prog, SLOTBD).get("leader_misbehaved", {})
-    o.check(set(x.rsplit("::", 1)[-1] for x in w) <= {"mark_leader_misbehaved"}, "leader_misbehaved|writers", "leader_misbehaved is written only in mark_leader_misbehaved", "", {"writers": [fshort(x) for x in w]})
-    b = prog.body(SLOTBD + "::mark_leader_misbehaved")
-    if b is None:
-        o.missing("SlotBlockData::mark_leader_misbehaved")
-    else:
-        for (bb, sp, rv) in K.writes_of_field(b, "SlotBlockData", "leader_misbehaved"):
-            t = b.rvalue_term(rv)
-            g = [a for a in G.guard_atoms(b, bb, prog) if a[0] == "bool" and a[2] is False and K.is_field(a[1][0], "leader_misbehaved", "SlotBlockData")]
-            o.check(t[0] == "const" and t[2] == 1 and bool(g), "mark_leader_misbehaved|set-once", "set to true only when it was false", sp)
-        import engine.paths as P
-        tt = P.decision_table(b, prog)
-        outs = set()
-        for atoms, ret, blocks in tt:
-            flag = [a for a in atoms if a[0] == "bool" and K.is_field(a[1][0], "leader_misbehaved", "SlotBlockData")]
-            if flag and ret is not None and ret[0] == "const":
-                outs.add((flag[0][2], bool(ret[2])))
-        o.check(outs == {(True, False), (False, True)}, "mark_leader_misbehaved|returns-newly", "returns true exactly when the flag was newly set", b.span, {"table": sorted(outs)})
-    for fb in prog.family(IMPL + "flag_leader_misbehavior") + prog.family(BS + "BlockstoreImpl::flag_leader_misbehavior"):
-        for (bb, rv, sp, dst) in fb.aggregates(BS + "BlockstoreEvent", "InvalidBlock"):
-            g = [a for a in G.guard_atoms(fb, bb, prog) if a[0] == "bool" and a[2] is True and K.mentions_call(a[1][0], "mark_leader_misbehaved")]
-            o.check(bool(g), "flag_leader_misbehavior|InvalidBlock|once", "InvalidBlock is emitted only when mark_leader_misbehaved() newly set the flag", sp)
-    evs = []
-    for d, fb in prog.bodies.items():
-        if fb.generated:
-            continue
-        for (bb, rv, sp, dst) in fb.aggregates(BS + "BlockstoreEvent", "InvalidBlock"):
-            evs.append(K.root_fn(d))
-    o.check(bool(evs) and all(x.endswith("flag_leader_misbehavior") for x in evs), "InvalidBlock|constructed-in", "InvalidBlock is constructed only in flag_leader_misbehavior", "", {"sites": [fshort(x) for x in evs]})
-    b = prog.body(SLOTBD + "::add_shred_from_dissemination")
-    if b is None:
-        o.missing("SlotBlockData::add_shred_from_dissemination")
-    else:
-        for c in b.calls_to(BD + "::add_shred"):
-            g = [a for a in G.guard_atoms(b, c.bb, prog) if a[0] == "bool" and a[2] is False and K.is_field(a[1][0], "leader_misbehaved", "SlotBlockData")]
-            o.check(bool(g), "add_shred_from_dissemination|ingest|flag-false", "dissemination shreds are ingested only while leader_misbehaved is false", c.span)
-            o.check(K.is_field(b.operand_term(c.args[0]), "disseminated", "SlotBlockData"), "add_shred_from_dissemination|ingest|target", "into the `disseminated` block data", c.span)
-    w = K.all_field_writers(prog, BD).get("completed", {})
-    o.check(set(x.rsplit("::", 1)[-1] for x in w) == {"try_reconstruct_block"}, "completed|writers", "`completed` is written only in try_reconstruct_block", "", {"writers": [fshort(x) for x in w]})
-    for fn in ("try_reconstruct_block", "try_reconstruct_slice"):
-        b = prog.body(BD + "::" + fn)
-        if b is None:
-            o.missing("BlockData::" + fn)
-            continue
-        # all effects (writes to completed / slices insert) happen only when completed is None
-        acts = [(bb, sp) for (bb, sp, rv) in K.writes_of_field(b, "BlockData", "completed")]
-        acts += [(c.bb, c.span) for c in b.calls() if c.name.endswith("VacantEntry::insert") or (c.name.endswith("Shredder::deshred") or c.name.endswith("::deshred"))]
-        for (bb, sp), key in K.ordinal_keys(acts, lambda x: "%s|effect" % fn):
-            g = [a for a in G.guard_atoms(b, bb, prog) if a[0] == "is_some" and a[2] is False and K.is_field(a[1][0], "completed", "BlockData")]
-            o.check(bool(g), key + "|not-completed", "%s acts only while no block is completed for the slot" % fn, sp)
-
     # ------------------------------------------------------------------ O13.2
-    o = run.ob("O13.2", "malformed-content gates dominate the completion of a block",
+    o = run.ob(oid, "malformed-content gates dominate the completion of a block",
                "a block completed without these gates is announced to Votor/Pool although it is malformed (e.g. parent in a later slot trips assert!(block.0 > parent.0) in the pool)", floor=8)
     b = prog.body(BD + "::try_reconstruct_block")
     if b is not None:
@@ -198,7 +134,11 @@ def check(run):
                     if d[0] == "stmt" and b.rvalue_term(d[3]["rv"]) == ("const", "bool", 1) and (b.dominates(bb, d[1]) or d[1] == bb or b.dominates(d[1], bb) and b.can_reach(bb, d[1])):
                         set_true = True
             o.check(bool(flags) and set_true, "try_reconstruct_block|parent-switch|once", "switch at most once (guarded by a flag that the switch sets)", spx, det)
-            o.check(any(a[0] == "lt" and a[2] is True and any(K.mentions_field(x, "slot", "BlockData") for x in a[1][1:]) for a in atoms), "try_reconstruct_block|parent-switch|slot-earlier", "the new parent is in an earlier slot", spx, det)
+            def new_parent_slot(x):
+                # <slice>.parent as Some.0 .0 : the slot of the parent this slice switches to
+                return K.mentions(x, lambda y: y[0] == "field" and y[2] == "0" and whole_new(y[1])) or (K.mentions(x, whole_new) and not K.mentions(x, lambda y: y[0] == "local" and y[1] == parent_local))
+            o.check(any(a[0] == "lt" and a[2] is True and new_parent_slot(a[1][0]) and any(K.mentions_field(x, "slot", "BlockData") for x in a[1][1:]) for a in atoms),
+                    "try_reconstruct_block|parent-switch|slot-earlier", "the NEW parent is in a strictly earlier slot than the block (slot(new parent) < block slot on the path of the switch)", spx, det)
             o.check(any(a[0] == "bool" and a[2] is False and K.mentions_call(a[1][0], "is_first") for a in atoms), "try_reconstruct_block|parent-switch|not-first-slice", "only in a slice after the first", spx, det)
         # decode gate: transactions appended only from Ok of deserialize_exact
         app = [c for c in b.calls() if c.name.endswith("Vec::append")]
@@ -232,6 +172,82 @@ def check(run):
             o.check(ok, "try_reconstruct_slice|insert|first-has-parent", "a first slice is stored only if it carries a parent", c.span, det)
             g = [a for a in G.guard_atoms(b, c.bb, prog) if a[0] == "is_ok" and a[2] is True and K.mentions_call(a[1][0], "deshred")]
             o.check(bool(g), "try_reconstruct_slice|insert|deshred-ok", "a slice is stored only from a successful deshred", c.span)
+
+
+
+def check(run):
+    from . import detectors as _DL
+    _DL.ob_loop_exits(run, "O13.9", ['consensus::blockstore'], 'every slice of a block is reconstructed and checked: a loop that stops early assembles a partial block')
+    # "can afterwards serve every shred, slice root and proof of it": the lookup behind all getters
+    from . import C14
+    C14.ob_block_lookup(run, "O13.8")
+    ob_slice_outcomes(run, "O13.7")
+    # "undecodable data => invalid block": what counts as decodable is decided by the shredder's integrity gates (layout, Merkle root, padding
+    # marker, payload decode) and the Reed-Solomon decode tail
+    from . import C11
+    with run.restricted(lambda oid: oid in ("O13.10.5", "O13.10.10", "O13.10.12")):
+        C11.check(run, prefix="O13.10")
+    D.ob_state_mutations(run, "O13.6", ['consensus::blockstore::slot_block_data::BlockData', 'consensus::blockstore::slot_block_data::SlotBlockData', 'consensus::blockstore::BlockstoreImpl'], 'completed / last_slice / commitment_cache / misbehaviour flags are once-only records: clearing them re-announces blocks or hides equivocation')
+    ob_last_slice_prune(run, "O13.1b")
+    from . import C12
+    C12.ob_equivocation(run, "O13.1c")
+    prog = run.program("lib")
+
+    # ------------------------------------------------------------------ O13.1
+    o = run.ob("O13.1", "once-only flags: misbehaviour flagged once, no dissemination ingest afterwards, block completed once",
+               "announcing twice makes Votor act twice; ingesting after the flag announces a block for a slot already declared invalid", floor=8)
+    w = K.all_field_writers(prog, SLOTBD).get("leader_misbehaved", {})
+    o.check(set(x.rsplit("::", 1)[-1] for x in w) <= {"mark_leader_misbehaved"}, "leader_misbehaved|writers", "leader_misbehaved is written only in mark_leader_misbehaved", "", {"writers": [fshort(x) for x in w]})
+    b = prog.body(SLOTBD + "::mark_leader_misbehaved")
+    if b is None:
+        o.missing("SlotBlockData::mark_leader_misbehaved")
+    else:
+        for (bb, sp, rv) in K.writes_of_field(b, "SlotBlockData", "leader_misbehaved"):
+            t = b.rvalue_term(rv)
+            g = [a for a in G.guard_atoms(b, bb, prog) if a[0] == "bool" and a[2] is False and K.is_field(a[1][0], "leader_misbehaved", "SlotBlockData")]
+            o.check(t[0] == "const" and t[2] == 1 and bool(g), "mark_leader_misbehaved|set-once", "set to true only when it was false", sp)
+        import engine.paths as P
+        tt = P.decision_table(b, prog)
+        outs = set()
+        for atoms, ret, blocks in tt:
+            flag = [a for a in atoms if a[0] == "bool" and K.is_field(a[1][0], "leader_misbehaved", "SlotBlockData")]
+            if flag and ret is not None and ret[0] == "const":
+                outs.add((flag[0][2], bool(ret[2])))
+        o.check(outs == {(True, False), (False, True)}, "mark_leader_misbehaved|returns-newly", "returns true exactly when the flag was newly set", b.span, {"table": sorted(outs)})
+    for fb in prog.family(IMPL + "flag_leader_misbehavior") + prog.family(BS + "BlockstoreImpl::flag_leader_misbehavior"):
+        for (bb, rv, sp, dst) in fb.aggregates(BS + "BlockstoreEvent", "InvalidBlock"):
+            g = [a for a in G.guard_atoms(fb, bb, prog) if a[0] == "bool" and a[2] is True and K.mentions_call(a[1][0], "mark_leader_misbehaved")]
+            o.check(bool(g), "flag_leader_misbehavior|InvalidBlock|once", "InvalidBlock is emitted only when mark_leader_misbehaved() newly set the flag", sp)
+    evs = []
+    for d, fb in prog.bodies.items():
+        if fb.generated:
+            continue
+        for (bb, rv, sp, dst) in fb.aggregates(BS + "BlockstoreEvent", "InvalidBlock"):
+            evs.append(K.root_fn(d))
+    o.check(bool(evs) and all(x.endswith("flag_leader_misbehavior") for x in evs), "InvalidBlock|constructed-in", "InvalidBlock is constructed only in flag_leader_misbehavior", "", {"sites": [fshort(x) for x in evs]})
+    b = prog.body(SLOTBD + "::add_shred_from_dissemination")
+    if b is None:
+        o.missing("SlotBlockData::add_shred_from_dissemination")
+    else:
+        for c in b.calls_to(BD + "::add_shred"):
+            g = [a for a in G.guard_atoms(b, c.bb, prog) if a[0] == "bool" and a[2] is False and K.is_field(a[1][0], "leader_misbehaved", "SlotBlockData")]
+            o.check(bool(g), "add_shred_from_dissemination|ingest|flag-false", "dissemination shreds are ingested only while leader_misbehaved is false", c.span)
+            o.check(K.is_field(b.operand_term(c.args[0]), "disseminated", "SlotBlockData"), "add_shred_from_dissemination|ingest|target", "into the `disseminated` block data", c.span)
+    w = K.all_field_writers(prog, BD).get("completed", {})
+    o.check(set(x.rsplit("::", 1)[-1] for x in w) == {"try_reconstruct_block"}, "completed|writers", "`completed` is written only in try_reconstruct_block", "", {"writers": [fshort(x) for x in w]})
+    for fn in ("try_reconstruct_block", "try_reconstruct_slice"):
+        b = prog.body(BD + "::" + fn)
+        if b is None:
+            o.missing("BlockData::" + fn)
+            continue
+        # all effects (writes to completed / slices insert) happen only when completed is None
+        acts = [(bb, sp) for (bb, sp, rv) in K.writes_of_field(b, "BlockData", "completed")]
+        acts += [(c.bb, c.span) for c in b.calls() if c.name.endswith("VacantEntry::insert") or (c.name.endswith("Shredder::deshred") or c.name.endswith("::deshred"))]
+        for (bb, sp), key in K.ordinal_keys(acts, lambda x: "%s|effect" % fn):
+            g = [a for a in G.guard_atoms(b, bb, prog) if a[0] == "is_some" and a[2] is False and K.is_field(a[1][0], "completed", "BlockData")]
+            o.check(bool(g), key + "|not-completed", "%s acts only while no block is completed for the slot" % fn, sp)
+
+    ob_content_gates(run, "O13.2")
 
     # ------------------------------------------------------------------ O13.3
     o = run.ob("O13.3", "the block hash is the root of the double-Merkle tree over the reconstructed slices' roots",
